@@ -260,7 +260,9 @@ def streams_phase(ctx, part):
     for ci, (m, a, M) in enumerate([("euclidean", "simple", 2), ("cosine", "heuristic", 3), ("manhattan", "simple", 1)] if quick else
                                    [("euclidean", "simple", 2), ("cosine", "heuristic", 3), ("manhattan", "simple", 16), ("manhattan", "simple", 1), ("euclidean", "heuristic", 1)]):
         cfgp = ctx.path("scfg-%d.json" % ci)
-        json.dump({"index": {"metric": m, "algo": a, "M": M, "MMax": M, "MMax0": 2 * M}, "np": 12, "dim": 5,
+        # dimensions on both sides of 256 (a vector codec that works in blocks of components has its seams there)
+        dim = [5, 300, 3, 257, 4][ci]
+        json.dump({"index": {"metric": m, "algo": a, "M": M, "MMax": M, "MMax0": 2 * M}, "np": 12, "dim": dim,
                    "nids": 9, "maxlvl": 2, "ids": (ctx.seed + ci) % 4}, open(cfgp, "w"))
         trace = ctx.path("strace-%d.ndjson" % ci)
         rank = ctx.path("srank-%d.tla" % ci)
